@@ -229,6 +229,10 @@ class Interp(object):
     def call_funcdef(self, fn, mod, cls, selfv, args, kwargs, closure=None, qual=None):
         fr = Frame(mod, cls, qual or fn.name, closure)
         self.bind_params(fn, fr, selfv, args, kwargs)
+        if self.depth >= 1 and fn.name != '<lambda>':
+            note = 'executed-inline %s' % (qual or fn.name)
+            if note not in self.ctx.notes:
+                self.ctx.notes.append(note)     # real body of a callee run in place under the caller's contract (reported in the evidence)
         self.depth += 1
         if self.depth > 40:
             raise Undecided('recursion too deep at %s' % fn.name)
@@ -951,6 +955,10 @@ class Interp(object):
             return a   # string formatting: value is only logged / used as message
         if isinstance(a, tuple) and isinstance(b, tuple) and isinstance(op, ast.Add):
             return a + b
+        if isinstance(op, ast.Mult) and isinstance(a, (str, bytes)) and isinstance(b, int) and not isinstance(b, bool) and not is_sym(b) and b < 4096:
+            return a * b
+        if isinstance(op, ast.Mult) and isinstance(b, (str, bytes)) and isinstance(a, int) and not isinstance(a, bool) and not is_sym(a) and a < 4096:
+            return a * b
         if not (is_num(a) or isinstance(a, (bool, z3.BoolRef))) or not (is_num(b) or isinstance(b, (bool, z3.BoolRef))):
             raise Undecided('binop %s on %r, %r' % (type(op).__name__, a, b))
         if isinstance(a, (bool, z3.BoolRef)):
